@@ -12,7 +12,7 @@ def optRat : Option Rat → String
   | some q => renderRat q
 
 /-- `n` events: `A <tree>` / `B <tree>` (edit of the first / second tree: its new structure), `RA <rooting> <tree>` / `RB …` (its rooting state changed: new flag and structure), `F0` `F1` (false positives and
-    negatives with is_bipartitions_updated False / True), `M0` `M1` (find_missing_bipartitions), `W` (both weighted functions, default) -/
+    negatives with is_bipartitions_updated False / True), `M0` `M1` (find_missing_bipartitions), `W` (both weighted functions, default: wRF, Euclid², ⌊2^60·Euclid⌋) -/
 def parseEvs : Nat → List String → Option (List Ev × List String)
   | 0, ws => some ([], ws)
   | n + 1, "A" :: ws => match parseTree ws with
@@ -42,7 +42,9 @@ def histOut (st : TreeObj × TreeObj) : List Ev → List String
       | .fpfn u => [match (fpfnCall u st.1 st.2).1 with | some (a, b) => s!"{a} {b}" | none => "refused"]
       | .missing u => [match (missingCall u st.1 st.2).1 with
           | some ms => "m " ++ " ".intercalate (ms.map toString) | none => "refused"]
-      | .weighted => [match (weightedCall st.1 st.2).1 with | some (w, e) => s!"{optRat w} {optRat e}" | none => "refused"]
+      | .weighted => [match (weightedCall st.1 st.2).1 with
+          | some (w, e) => s!"{optRat w} {optRat e} {match e with | some q => toString (rootFix rootBits q) | none => "E"}"
+          | none => "refused"]
       | _ => []) ++ histOut (step st e) es
 
 def handle (ws : List String) : String :=
